@@ -163,6 +163,42 @@ func c19(r *core.Run) {
 		}
 	}
 	c19InboxOpen(r, "U1", fn, subInv, subVal)
+	// the inbox is this call's own: the subject subscribed to is made by the NATS client's inbox
+	// generator (unique per call by construction) in this call - a home-made subject (a prefix plus
+	// a counter read back after the increment) can be handed to two concurrent calls, and each then
+	// receives the other's response
+	{
+		var subj ssa.Value
+		for _, a := range subInv.Common().Args {
+			if isStringType(a.Type()) {
+				subj = a
+				break
+			}
+		}
+		if subj == nil {
+			r.Unres("U1", fname+".<inbox-subject>", "the subscribe call has no string argument")
+		} else {
+			nGen, other := 0, ""
+			for _, av := range paramArgs(p, subj, 0) {
+				for _, lf := range valueLeaves(av, nil, 0) {
+					v := core.Strip(lf.V)
+					if c, ok := v.(*ssa.Call); ok {
+						cal := c.Common().StaticCallee()
+						if cal != nil && cal.Pkg != nil && strings.HasSuffix(cal.Pkg.Pkg.Path(), "nats-io/nats.go") && (cal.Name() == "NewInbox" || cal.Name() == "NewRespInbox") {
+							nGen++
+							continue
+						}
+						if c.Common().IsInvoke() && (c.Common().Method.Name() == "NewInbox" || c.Common().Method.Name() == "NewRespInbox") {
+							nGen++
+							continue
+						}
+					}
+					other = valDesc(lf.V)
+				}
+			}
+			r.Check(nGen > 0 && other == "", "U1", fname, "inbox-subject<-nats.NewInbox()", p.InstrPos(subInv), "the inbox subject is the client library's unique inbox, made in this call", "the inbox subject is not (only) the result of the NATS client's inbox generator ("+other+"): nothing guarantees that two concurrent SendRequest calls get different inboxes, and a shared inbox delivers every response to both")
+		}
+	}
 	if def == nil {
 		r.Bad("U1", fname, "defer-Unsubscribe", p.Pos(fn.Pos()), "the inbox subscription is never released by a deferred Unsubscribe")
 	} else {
@@ -528,8 +564,16 @@ func c19(r *core.Run) {
 				}
 			}
 			d := describeCond(e)
-			if strings.Contains(d, "Msg.Data") || strings.Contains(d, "extract:call:strconv.Atoi") {
+			if strings.Contains(d, "Msg.Data") {
 				return true
+			}
+			// the conversion's error tested against nil - not a test of the converted number
+			if ci := core.Cond(c); ci.Kind == "nilcmp" {
+				if ex, ok := core.Strip(ci.X).(*ssa.Extract); ok && types.TypeString(ex.Type(), nil) == "error" {
+					if call, ok := ex.Tuple.(*ssa.Call); ok && core.CalleeName(call) == "strconv.Atoi" {
+						return true
+					}
+				}
 			}
 			if call, ok := c.(*ssa.Call); ok && involvesData(call, 0) {
 				return true // a classifier of the message bytes (e.g. isPreResponse(msg.Data))
@@ -539,7 +583,7 @@ func c19(r *core.Run) {
 				if strings.Contains(valDesc(bo.X), "Msg.Data") || involvesData(bo.X, 0) {
 					return true
 				}
-				if ex, ok := bo.X.(*ssa.Extract); ok && ex.Tuple == atoi.Value() {
+				if ex, ok := bo.X.(*ssa.Extract); ok && ex.Tuple == atoi.Value() && types.TypeString(ex.Type(), nil) == "error" {
 					return true
 				}
 			}
@@ -650,6 +694,40 @@ func c19(r *core.Run) {
 				usesNew = true
 			}
 		}
+		if !usesNew {
+			// the timer lives in a field of a waiter object: the select reads the field the new timer is
+			// stored into, of the same object (the bases resolve to a common source)
+			for _, st := range sel.States {
+				var tl ssa.Value = st.Chan
+				for i := 0; i < 4 && tl != nil; i++ {
+					if vals, bases, ok := fieldStores(tl, p.Helpers(fn)); ok && strings.HasSuffix(types.TypeString(tl.Type(), nil), "time.Timer") {
+						selBase := map[ssa.Value]bool{}
+						for _, b := range paramArgs(p, tl.(*ssa.UnOp).X.(*ssa.FieldAddr).X, 0) {
+							selBase[core.Strip(b)] = true
+						}
+						for i, v := range vals {
+							if v != newTimer.Value() {
+								continue
+							}
+							for _, b := range paramArgs(p, bases[i], 0) {
+								if selBase[core.Strip(b)] {
+									usesNew = true
+								}
+							}
+						}
+						break
+					}
+					switch x := tl.(type) {
+					case *ssa.UnOp:
+						tl = x.X
+					case *ssa.FieldAddr:
+						tl = x.X
+					default:
+						tl = nil
+					}
+				}
+			}
+		}
 		r.Check(usesNew, "T1", fname, "select-waits-on-the-new-timer", p.InstrPos(sel), "the loop waits on the replaced timer", "the new timer is created but the loop keeps waiting on the old one")
 		// callbacks
 		cbOK := false
@@ -682,7 +760,21 @@ func c19(r *core.Run) {
 				continue
 			}
 			fromParam := false
-			for _, src := range paramArgs(p, ia.X, 0) {
+			srcs := paramArgs(p, ia.X, 0)
+			if vals, _, ok := fieldStores(ia.X, p.Helpers(fn)); ok && len(vals) > 0 {
+				// the callback list kept in a field of a waiter object: every store into it hands on the parameter
+				srcs = nil
+				for _, v := range vals {
+					srcs = append(srcs, paramArgs(p, v, 0)...)
+				}
+				for _, src := range srcs {
+					if prm, ok := src.(*ssa.Parameter); !ok || prm.Parent() != fn {
+						srcs = nil
+						break
+					}
+				}
+			}
+			for _, src := range srcs {
 				if prm, ok := src.(*ssa.Parameter); ok && (prm.Parent() == fn || prm.Parent() == wf) {
 					fromParam = true
 				}
